@@ -401,23 +401,29 @@ Proof.
   eapply good_create_named_inner; eauto. lia.
 Qed.
 
-Lemma np_create_named w h name item : PanicFree w -> h < w_next w -> name_ok name -> name_ok (SHORT T) ->
-  runs (e_create_named_sub_element T check_fn LATEST h name item) w.
+Lemma gq_create_named w h name item : PanicFree w -> h < w_next w -> name_ok name -> name_ok (SHORT T) ->
+  runsQ (e_create_named_sub_element T check_fn LATEST h name item) w (good w (fun c w' => c < w_next w')).
 Proof.
   intros [C U _] L NM SN. unfold e_create_named_sub_element.
-  eapply rd_bind_runs; [apply (ENV model_of_ok w h C U L)|]. intros m Lm.
-  eapply rd_bind_runs; [apply (ENV min_version_ok w h C U L)|]. intros v _.
-  eapply good_runs. apply good_raw_create_named; auto.
+  eapply good_rd; [exact C|apply (ENV model_of_ok w h C U L)|]. intros m Lm.
+  eapply good_rd; [exact C|apply (ENV min_version_ok w h C U L)|]. intros v _.
+  apply good_raw_create_named; auto.
 Qed.
+Lemma np_create_named w h name item : PanicFree w -> h < w_next w -> name_ok name -> name_ok (SHORT T) ->
+  runs (e_create_named_sub_element T check_fn LATEST h name item) w.
+Proof. intros. eapply good_runs. apply gq_create_named; assumption. Qed.
 
-Lemma np_create_named_at w h name item pos : PanicFree w -> h < w_next w -> name_ok name -> name_ok (SHORT T) ->
-  runs (e_create_named_sub_element_at T check_fn LATEST h name item pos) w.
+Lemma gq_create_named_at w h name item pos : PanicFree w -> h < w_next w -> name_ok name -> name_ok (SHORT T) ->
+  runsQ (e_create_named_sub_element_at T check_fn LATEST h name item pos) w (good w (fun c w' => c < w_next w')).
 Proof.
   intros [C U _] L NM SN. unfold e_create_named_sub_element_at.
-  eapply rd_bind_runs; [apply (ENV model_of_ok w h C U L)|]. intros m Lm.
-  eapply rd_bind_runs; [apply (ENV min_version_ok w h C U L)|]. intros v _.
-  eapply good_runs. apply good_raw_create_named_at; auto.
+  eapply good_rd; [exact C|apply (ENV model_of_ok w h C U L)|]. intros m Lm.
+  eapply good_rd; [exact C|apply (ENV min_version_ok w h C U L)|]. intros v _.
+  apply good_raw_create_named_at; auto.
 Qed.
+Lemma np_create_named_at w h name item pos : PanicFree w -> h < w_next w -> name_ok name -> name_ok (SHORT T) ->
+  runs (e_create_named_sub_element_at T check_fn LATEST h name item pos) w.
+Proof. intros. eapply good_runs. apply gq_create_named_at; assumption. Qed.
 
 Lemma first_named_item_ok w name item l : Closed w -> (forall c, In (CElem c) l -> c < w_next w) ->
   rd (first_named_item T name item l) w (fun _ => True).
